@@ -10,6 +10,8 @@ import (
 	"encoding/hex"
 	"encoding/json"
 	"fmt"
+	"hash/fnv"
+	"sort"
 	"strings"
 	"sync"
 	"testing"
@@ -420,15 +422,83 @@ func renderC(p program, carrier, v string) (string, error) {
 		}
 		return t
 	}
+	// the public way in varies with the case: the same escaping must hold through every door
+	ctx := context.Background()
+	d := dataC(carrier, v)
+	assign := func(t vuego.Template) vuego.Template {
+		keys := make([]string, 0, len(d))
+		for k := range d {
+			keys = append(keys, k)
+		}
+		sort.Strings(keys)
+		for _, k := range keys {
+			t = t.Assign(k, d[k])
+		}
+		return t
+	}
+	dr := door(p, carrier, v)
 	if p.files != nil {
-		err = fail(vuego.NewFS(memfs.FromMap(p.files), vuego.WithFuncs(funcs)).Load("page.vuego").Fill(dataC(carrier, v))).Render(context.Background(), &buf)
+		fsys := memfs.FromMap(p.files)
+		switch dr {
+		case 12:
+			err = fail(vuego.New(vuego.WithFS(fsys), vuego.WithFuncs(funcs)).Load("page.vuego").Fill(d)).Render(ctx, &buf)
+		case 13:
+			err = fail(vuego.View(vuego.NewFS(fsys, vuego.WithFuncs(funcs)), "page.vuego", d)).Render(ctx, &buf)
+		case 14:
+			err = fail(assign(vuego.NewFS(fsys, vuego.WithFuncs(funcs)).Load("page.vuego"))).Render(ctx, &buf)
+		case 15:
+			err = fail(vuego.NewFS(fsys, vuego.WithFuncs(funcs)).New().Fill(d)).RenderFile(ctx, &buf, "page.vuego")
+		case 16:
+			err = fail(vuego.NewFS(fsys, vuego.WithLessProcessor(), vuego.WithFuncs(funcs), vuego.WithFuncs(funcs)).Fill(d).Load("page.vuego")).Render(ctx, &buf)
+		default:
+			err = fail(vuego.NewFS(fsys, vuego.WithFuncs(funcs)).Load("page.vuego").Fill(d)).Render(ctx, &buf)
+		}
 	} else {
-		err = fail(vuego.New(vuego.WithFuncs(funcs)).Fill(dataC(carrier, v))).RenderString(context.Background(), &buf, p.tpl)
+		fsys := memfs.FromMap(map[string]string{"page.vuego": p.tpl})
+		switch dr {
+		case 12:
+			err = fail(vuego.New(vuego.WithFuncs(funcs)).Fill(d)).RenderByte(ctx, &buf, []byte(p.tpl))
+		case 13:
+			err = fail(vuego.New(vuego.WithFuncs(funcs)).Fill(d)).RenderReader(ctx, &buf, strings.NewReader(p.tpl))
+		case 14:
+			err = fail(assign(vuego.New(vuego.WithFuncs(funcs)))).RenderString(ctx, &buf, p.tpl)
+		case 15:
+			err = fail(vuego.New(vuego.WithFS(fsys), vuego.WithFuncs(funcs)).Fill(d)).RenderFile(ctx, &buf, "page.vuego")
+		case 16:
+			err = vuego.NewVue(fsys).Funcs(funcs).RenderFragment(&buf, "page.vuego", d)
+		case 17:
+			err = vuego.NewVue(fsys).Funcs(funcs).Render(&buf, "page.vuego", d)
+		case 18:
+			err = fail(vuego.View(vuego.NewFS(fsys, vuego.WithFuncs(funcs)), "page.vuego", d)).Render(ctx, &buf)
+		case 19:
+			err = fail(vuego.New(vuego.WithFuncs(funcs)).New().Fill(d).New()).RenderString(ctx, &buf, p.tpl)
+		case 20:
+			err = fail(vuego.NewFS(fsys, vuego.WithLessProcessor(), vuego.WithFuncs(funcs)).Load("page.vuego").Fill(d)).Render(ctx, &buf)
+		case 21:
+			err = fail(vuego.New(vuego.WithFuncs(funcs)).Fill(d).Assign("v", d["v"])).RenderString(ctx, &buf, p.tpl)
+		case 22:
+			err = fail(assign(vuego.NewFS(fsys, vuego.WithFuncs(funcs)).Load("page.vuego"))).Render(ctx, &buf)
+		case 23:
+			err = fail(vuego.NewFS(fsys, vuego.WithFuncs(funcs)).Fill(d).New().Load("page.vuego")).Render(ctx, &buf)
+		default:
+			err = fail(vuego.New(vuego.WithFuncs(funcs)).Fill(d)).RenderString(ctx, &buf, p.tpl)
+		}
 	}
 	if m := after.Leaked(buf.String()); m != "" && err == nil && !strings.Contains(v, "STALE") {
 		return buf.String(), fmt.Errorf("the output shows %q: text or a value of an earlier FAILED render (or of a failed call on the same template object)\noutput: %s", m, buf.String())
 	}
 	return buf.String(), err
+}
+
+// door derives the entry point of a case from its content (0..11: the common one).
+func door(p program, carrier, v string) int {
+	h := fnv.New32a()
+	h.Write([]byte(v))
+	h.Write([]byte{0})
+	h.Write([]byte(p.tpl))
+	h.Write([]byte{0})
+	h.Write([]byte(carrier))
+	return int(h.Sum32() % 24)
 }
 
 func parse(p program, out string) ([]*hx.N, error) {
